@@ -9,8 +9,9 @@ Tick == nev < MaxEvents /\ nev' = nev + 1
 AddT(c, s) == Tick /\ s \in States /\ AddN(c, s)
 RemoveT(c) == Tick /\ RemoveN(c)
 TransT(c, s) == Tick /\ s \in States /\ TransN(c, s)
+ReplT(c) == Tick /\ ReplN(c)
 PickT == Pick /\ UNCHANGED nev
-Next == PickT \/ (\E c \in Children : RemoveT(c) \/ \E s \in States : AddT(c, s) \/ TransT(c, s))
+Next == PickT \/ (\E c \in Children : RemoveT(c) \/ ReplT(c) \/ \E s \in States : AddT(c, s) \/ TransT(c, s))
 \* the linear formulation used by the trace specification is equivalent to the property's window clause
 ASSUME \A n \in 1..3 : \A m \in 0..(n + 3) : \A seq \in [1..m -> 0..n] : FairOver(seq, 1..n) <=> PeriodicPerm(seq, 1..n)
 ====
